@@ -9,8 +9,8 @@
   (regenerated from the source on every run); the control flow here is tied to the source by
   the translator's shape check and by the correspondence run.
 
-  Three statements exist in two variants (DESIGN §2.4): as shipped in the pinned tree, and as
-  intended (fixes/C19-1..3); the correspondence probes the real code to pick the variant.
+  Four places exist in two variants (DESIGN §2.4): as shipped in the pinned tree, and as
+  intended (fixes/C19-1..3, C19-5); the correspondence probes the real code to pick the variant.
 -/
 import PyIpmi.Base.Outcome
 import PyIpmi.Gen.Ipmitool
@@ -27,10 +27,13 @@ structure Variant where
   cipherNotNone : Bool
   /-- `elif len(target.routing) == 2:` — the depth-1 case really is "nothing to add" -/
   depth1 : Bool
+  /-- `rmcp_ping` passes `-L <level>` unless the level is ADMINISTRATOR (ipmitool's own default) and
+  `-C <cipher>` when a cipher is configured (fixes/C19-5); as shipped it passes neither -/
+  pingOpts : Bool
   deriving DecidableEq, Repr
 
-def asShipped : Variant := ⟨false, false, false⟩
-def intended : Variant := ⟨true, true, true⟩
+def asShipped : Variant := ⟨false, false, false, false⟩
+def intended : Variant := ⟨true, true, true, true⟩
 
 /-! ### numbers as Python prints them -/
 
@@ -177,11 +180,29 @@ def pingAuthPart (v : Variant) : Auth → Str
   | .password u p => fmtS pUser (cred v u) ++ fmtS pPass (cred v p)
   | .other _ => []
 
+/-- `if self._session.priv_level != Session.PRIV_LEVEL_ADMINISTRATOR: cmd += self._build_ipmitool_priv_level(…)`
+(intended); no such statement as shipped -/
+def pingLevelPart (v : Variant) (level : Nat) : Outcome Str :=
+  if v.pingOpts then
+    (if level = levelAdmin then .ok []
+     else match lookupLevel level with
+       | .ok lv => .ok (fmtS fLevel lv)
+       | e => e)
+  else .ok []
+
+/-- `if self._cipher is not None: cmd += ' -C %s' % self._cipher` (intended); no such statement as shipped -/
+def pingCipherPart (v : Variant) : Cipher → Str
+  | .none => []
+  | .val _ text => if v.pingOpts then fmtS pCipher text else []
+
 /-- the command of `rmcp_ping` -/
-def buildPing (v : Variant) (path iface host port : Str) (a : Auth) : Outcome Str :=
+def buildPing (v : Variant) (path iface host port : Str) (level : Nat) (c : Cipher) (a : Auth) :
+    Outcome Str :=
   if iface = pingRefused then .pyError "RuntimeError"
-  else .ok (path ++ fmtS pIface iface ++ fmtS pHost host ++ fmtS pPort port
-        ++ pingAuthPart v a ++ pTail)
+  else match pingLevelPart v level with
+    | .ok lv => .ok (path ++ fmtS pIface iface ++ fmtS pHost host ++ fmtS pPort port
+        ++ lv ++ pingCipherPart v c ++ pingAuthPart v a ++ pTail)
+    | e => e
 
 /-! ### output parser -/
 
